@@ -100,7 +100,34 @@ type tcase struct {
 	// preloaded publishes were made: 1 = on a bus built without one, 2 = replacing one given
 	// as an option (which must then not be called any more)
 	SetAfter int `json:"handler_set_after_publishes,omitempty"`
+	// Observed: the bus also has an Observability implementation (one that derives a new
+	// context in every Start hook, as a tracing one does); failures are contained and
+	// reported exactly as without it
+	Observed bool `json:"with_observability,omitempty"`
 }
+
+type obsImpl struct{ starts, completes, failed int }
+type obsKey struct{}
+
+func (o *obsImpl) OnPublishStart(ctx context.Context, et string, ev any) context.Context {
+	return context.WithValue(ctx, obsKey{}, "publish")
+}
+func (o *obsImpl) OnPublishComplete(ctx context.Context, et string) {}
+func (o *obsImpl) OnHandlerStart(ctx context.Context, et string, async bool) context.Context {
+	return context.WithValue(ctx, obsKey{}, "handler")
+}
+func (o *obsImpl) OnHandlerComplete(ctx context.Context, d time.Duration, err error) {}
+func (o *obsImpl) OnPersistStart(ctx context.Context, et string, pos int64) context.Context {
+	o.starts++
+	return context.WithValue(ctx, obsKey{}, "persist")
+}
+func (o *obsImpl) OnPersistComplete(ctx context.Context, d time.Duration, err error) {
+	o.completes++
+	if err != nil {
+		o.failed++
+	}
+}
+
 
 func (t tcase) String() string {
 	var p []string
@@ -110,6 +137,9 @@ func (t tcase) String() string {
 	sa := ""
 	if t.SetAfter != 0 {
 		sa = fmt.Sprintf(" handlerSetAfterPublishes=%d", t.SetAfter)
+	}
+	if t.Observed {
+		sa += " withObservability"
 	}
 	return fmt.Sprintf("pattern=[%s] errorHandler=%v preloaded=%d lateSet=%v reentrant=%v hookAfterStore=%v%s", strings.Join(p, ","), t.Handler, t.Preloaded, t.LateSet, t.Reentrant, t.HookAfter, sa)
 }
@@ -177,6 +207,9 @@ func runCaseBody(t tcase) (out []string) {
 	}
 	if t.HookAfter {
 		opts = append(opts, eventbus.WithBeforePublishContext(func(context.Context, reflect.Type, any) {}))
+	}
+	if t.Observed {
+		opts = append(opts, eventbus.WithObservability(&obsImpl{}))
 	}
 	bus = eventbus.New(opts...)
 	if t.Handler && t.LateSet {
@@ -339,6 +372,9 @@ func cases(thorough bool) []tcase {
 			for _, hd := range []bool{false, true} {
 				for _, pre := range []int{0, 2} {
 					l = append(l, tcase{Pattern: p, Handler: hd, Preloaded: pre})
+					if pre == 0 {
+						l = append(l, tcase{Pattern: p, Handler: hd, Observed: true})
+					}
 					if hd {
 						l = append(l, tcase{Pattern: p, Handler: hd, Preloaded: pre, LateSet: true})
 						if pre == 0 {
